@@ -102,7 +102,8 @@ class Taint:
                     if is_unordered_result(p.get("ty")):
                         return {"ok:collect-into-map/set"}
                     return self.fate(f, c, p, seen, depth + 1)
-                if name == "for_each":
+                if name in ("for_each", "try_for_each"):
+                    # try_for_each = for_each that stops at the first Err: the same per-element effects as a `for` loop with `?`
                     return self.effects(f, c, p["args"][0]["body"] if p["args"] and p["args"][0].get("k") == "closure" else p, seen, depth)
                 if name in ORDER_SENSITIVE:
                     return {"order-sensitive:" + name}
@@ -149,7 +150,7 @@ class Taint:
                 name = gp.get("name", "")
                 if name in ("sorted_by", "sorted_by_key", "sort_by", "sort_by_key", "filter", "any", "all", "position", "find", "take_while", "skip_while", "retain", "max_by_key", "min_by_key"):
                     return {"ok:predicate/key-only"}
-                if name in ("for_each", "inspect"):
+                if name in ("for_each", "inspect", "try_for_each"):
                     return {"ok:dropped"}
                 return self.fate(f, c, gp, seen, depth + 1)
             return {"escapes:closure"}
